@@ -9,5 +9,5 @@ import json,jsonschema,sys
 try:
     jsonschema.validate(json.load(open('evidence/$p.json')), json.load(open('/root/.vp/EVIDENCE.schema.json'))); print('evidence-ok')
 except Exception as ex: print('EVIDENCE-BAD', str(ex).splitlines()[0])")
-  echo "$p rc=$rc ${e}s $v $(echo "$out" | grep -c VIOLATION) violations $(echo "$out" | grep -m1 -E 'MACHINERY|Traceback|Error' )"
+  echo "$p rc=$rc ${e}s $v $(echo "$out" | grep -c VIOLATION) violations $(echo "$out" | grep -m1 -E 'MACHINERY|Traceback|Error|NOTE' )"
 done
